@@ -298,7 +298,7 @@ func runCheck(prop string, ps *PropSpec, tier, repo string, seed int, verbose bo
 		// keep the obligations of this property
 		var keep []*Obl
 		for _, o := range vc.obls {
-			if cp := clauseProp(o.Name); cp != "" && cp != prop {
+			if cp := clauseProp(o.Name); cp != "" && cp != prop && os.Getenv("GOVC_ALL_LABELS") == "" {
 				continue
 			}
 			keep = append(keep, o)
